@@ -208,7 +208,7 @@ def pcacov(C, is_inverse=False, eps=1e-5):
     return U, l
 
 
-def ipca(B, U_a, l_a, n_a, m_a=None, f=1.0, eps=1e-10):
+def ipca(B, U_a, l_a, n_a, m_a=None, f=1.0, eps=1e-10, centre=None):
     r"""
     Perform Incremental PCA on the eigenvectors ``U_a``, eigenvalues ``l_a`` and
     mean vector ``m_a`` (if present) given a new data matrix ``B``.
@@ -236,6 +236,11 @@ def ipca(B, U_a, l_a, n_a, m_a=None, f=1.0, eps=1e-10):
         Tolerance value for positive eigenvalue. Those eigenvalues smaller
         than the specified eps value, together with their corresponding
         eigenvectors, will be automatically discarded.
+    centre : `bool` or ``None``, optional
+        Whether the model being updated is centred. If ``None`` (default),
+        this is inferred from ``m_a`` as described above. Pass ``True`` to
+        update a centred model whose current mean happens to be exactly
+        zero (a ``None`` mean is then treated as zeros).
 
     Returns
     -------
@@ -263,7 +268,12 @@ def ipca(B, U_a, l_a, n_a, m_a=None, f=1.0, eps=1e-10):
     # total number of samples
     n = n_a + n_b
 
-    if m_a is not None and not np.all(m_a == 0):
+    if centre is None:
+        centre = m_a is not None and not np.all(m_a == 0)
+
+    if centre:
+        if m_a is None:
+            m_a = np.zeros(d, dtype=B.dtype)
         # centred ipca; compute mean of new data
         m_b = np.mean(B, axis=0)
         # compute new mean
